@@ -140,7 +140,7 @@ Proof. exact fold_state_indep_proof. Qed.
 Print Assumptions c11_result_independent_of_counters.
 
 (* for every history of fold / fold_enhanced / register_co_chaperone /
-   reset_statistics calls on one object, started in any state: each call returns
+   reset_statistics / ChaperoneLoop.heal calls on one object, started in any state: each call returns
    (result and oracle calls) exactly what the same call returns on a FRESH
    Chaperone holding the co-chaperone registrations made so far — no verdict is
    carried from one call to the next *)
@@ -164,3 +164,79 @@ Theorem c11_history_step_is_fold :
       (let '(r, st', l) := fold_enhanced N O C ctor arg raw (cs_stats s) in (mkCS st' (cs_reg s), OEnh r l)).
 Proof. exact hstep_is_fold_proof. Qed.
 Print Assumptions c11_history_step_is_fold.
+
+(* ---- the healing loop: folds reported THROUGH ChaperoneLoop.heal -------------- *)
+(* Everywhere: [gen] is ANY generator (its k-th call returns the text [gen k]),
+   [mr] any max_retries (any integer, also negative), [decay] any
+   confidence_decay, [st] any counters of the Chaperone the loop drives. *)
+
+(* a result with a folded protein is valid, not DEGRADED, not tagged; its
+   structure was returned by model_validate on a value parsed from a text derived
+   from the text of generation k, for some k within the retry budget, which is the
+   last recorded attempt; VALID_FIRST_TRY iff k = 0.  A result without one is
+   DEGRADED, tagged, confidence 0.0, and every recorded attempt failed and
+   carries an error trace. *)
+Theorem c11_heal_valid_is_validated :
+  forall (N : num) (O : oracles) (C : config) ctor gen mr decay st h st' ls,
+    heal N O C ctor gen mr decay st = (Ret h, st', ls) ->
+    (forall r, h_folded h = Some r ->
+       h_outcome h <> HDegraded /\ h_tagged h = false /\ e_valid r = true /\ e_error r = None /\
+       exists k s, (Z.of_nat k <= mr)%Z /\ e_structure r = Some s /\ validated O C (gen k) s /\
+                   (h_outcome h = HValidFirstTry <-> k = 0%nat) /\
+                   exists atts', h_attempts h = atts' ++ [mkRA N k (gen k) None true (cur_conf N decay k)]) /\
+    (h_folded h = None ->
+       h_outcome h = HDegraded /\ h_tagged h = true /\ h_final h = lit_0_0 N /\
+       Forall (fun a => ra_success a = false /\ exists e, ra_error a = Some e) (h_attempts h)).
+Proof. exact heal_valid_proof. Qed.
+Print Assumptions c11_heal_valid_is_validated.
+
+(* confidence (exact arithmetic) of a healed fold lies in [0,1] for EVERY decay
+   (negative, above 1, any number of retries), is 1 only if STRICT succeeded, and
+   is what final_confidence reports; the strategy is one of the Chaperone's; a
+   degraded result reports 0; every recorded attempt confidence is >= 0, and <= 1
+   when the decay is not negative *)
+Theorem c11_heal_confidence_range_and_one_only_strict :
+  forall (O : oracles) (C : config) ctor gen mr (decay : Q) st h st' ls,
+    heal numQ O C ctor gen mr decay st = (Ret h, st', ls) ->
+    (forall r, h_folded h = Some r ->
+       (0 <= e_conf r)%Q /\ (e_conf r <= 1)%Q /\
+       ((e_conf r == 1)%Q -> e_strategy r = Some STRICT) /\
+       h_final h = e_conf r /\
+       (forall s, e_strategy r = Some s -> In s (effective ctor []))) /\
+    (h_folded h = None -> (h_final h == 0)%Q) /\
+    Forall (fun a : rattempt numQ => (0 <= ra_conf a)%Q /\ ((0 <= decay)%Q -> (ra_conf a <= 1)%Q)) (h_attempts h).
+Proof. exact heal_confidence_proof. Qed.
+Print Assumptions c11_heal_confidence_range_and_one_only_strict.
+
+(* no generated text makes the loop raise: if the user's callbacks return on every
+   generated text, heal returns *)
+Theorem c11_heal_total :
+  forall (N : num) (O : oracles) (C : config) ctor gen mr decay st,
+    (forall k, callbacks_return O C (gen k)) ->
+    exists h st' ls, heal N O C ctor gen mr decay st = (Ret h, st', ls).
+Proof. exact heal_total_proof. Qed.
+Print Assumptions c11_heal_total.
+
+(* counters: one fold per recorded attempt, at most max_retries + 1 of them, one
+   more success iff a fold is reported *)
+Theorem c11_heal_statistics :
+  forall (N : num) (O : oracles) (C : config) ctor gen mr decay st h st' ls,
+    heal N O C ctor gen mr decay st = (Ret h, st', ls) ->
+    st_total st' = (st_total st + Z.of_nat (length (h_attempts h)))%Z /\
+    st_successful st' = (st_successful st + (match h_folded h with Some _ => 1 | None => 0 end))%Z /\
+    length ls = length (h_attempts h) /\ (Z.of_nat (length (h_attempts h)) <= Z.max 0 (mr + 1))%Z.
+Proof. exact heal_statistics_proof. Qed.
+Print Assumptions c11_heal_statistics.
+
+(* a heal inside a history (covered by c11_history_independent above: [hop] has the
+   constructor HHeal) is literally the loop over fold_enhanced under the oracles of its
+   schema from the current counters, with confidence_decay the binary64 value m * 2^e *)
+Theorem c11_history_step_is_heal :
+  forall (N : num) (B : base) ctor s gen sch mr m e,
+    let co := lookup_co (cs_reg s) sch in
+    let O := oracles_for B sch co in
+    let C := config_for B co in
+    hstep N B ctor s (HHeal gen sch mr m e) =
+      (let '(r, st', ls) := heal N O C ctor gen mr (of_dyadic N m e) (cs_stats s) in (mkCS st' (cs_reg s), OHeal r ls)).
+Proof. exact hstep_is_heal_proof. Qed.
+Print Assumptions c11_history_step_is_heal.
